@@ -6,6 +6,8 @@ Local Open Scope Z_scope.
 
 Inductive obs := OOk (v : val) | OErr | OPanic.
 
+Inductive mobs := MRows (rows : list (string * string * val)) | MErr | MPanic.
+
 Record case := mkcase {
   c_ty : ty;                      (* struct shape materialised with reflect.StructOf *)
   c_doc : jv;                     (* the JSON document (numbers as tokens, float oracle attached) *)
@@ -17,8 +19,14 @@ Record case := mkcase {
                                      document is in the YAML subset, conf.LoadFromYamlBytes' outcome *)
   c_keys : list (string * string); (* (key spelling, conf.toCamelCase of it) observed *)
   c_outside : bool;               (* shape/document outside the modelled universe: checked for panic-freedom only *)
-  c_rt : option (val * val * obs) (* round trip: intended request value, the value the driver built (sent with
+  c_rt : option (val * val * obs); (* round trip: intended request value, the value the driver built (sent with
                                      httpc.buildRequest + DoRequest), and what httpx.Parse made of the request *)
+  c_str : option obs;             (* the same document through NewUnmarshaler(.., WithStringValues()): form/path/header mode *)
+  c_float : list (option N * option N * option N);
+                                  (* a number token into float32 and float64: Float64bits after the JSON route, after the
+                                     YAML route, and of strconv.ParseFloat(token, bitsize) *)
+  c_marshal : option (list (option string * field) * list val * mobs)
+                                  (* mapping.Marshal of a struct value: members (part name, declaration), values, result *)
 }.
 
 Definition res_matches (r : result val) (o : obs) : bool :=
@@ -51,6 +59,31 @@ Fixpoint camel_ty (t : ty) : ty :=
   | Struct fs => Struct (map (fun f => mkfield (if f_anon f then f_key f else to_camel_case (f_key f)) (f_opts f) (f_anon f) (camel_ty (f_ty f))) fs)
   end.
 
+(* WithStringValues(): every scalar member is read as if it were `string`-tagged, at every nesting level *)
+Fixpoint force_string (t : ty) : ty :=
+  match t with
+  | Prim k => Prim k
+  | Ptr t' => Ptr (force_string t')
+  | Slice t' => Slice (force_string t')
+  | Map t' => Map (force_string t')
+  | Struct fs => Struct (map (fun f =>
+      let o := f_opts f in
+      let o' := match deref (f_ty f) with
+                | Prim _ => mkopts (o_optional o) (o_default o) (o_options o) (o_range o) true (o_dep o)
+                | _ => o end in
+      mkfield (f_key f) o' (f_anon f) (force_string (f_ty f))) fs)
+  end.
+
+Definition row_eqb (a b : string * string * val) : bool :=
+  String.eqb (fst (fst a)) (fst (fst b)) && String.eqb (snd (fst a)) (snd (fst b)) && val_eqb (snd a) (snd b).
+
+Definition marshal_matches (r : result (list (string * string * val))) (o : mobs) : bool :=
+  match r, o with
+  | Ok rows, MRows rows' => Nat.eqb (List.length rows) (List.length rows') && forallb (fun a => existsb (row_eqb a) rows') rows
+  | Err _, MErr => true
+  | _, _ => false
+  end.
+
 (* --- the transcription reproduces what the Go code did --- *)
 Definition model_ok (c : case) : bool :=
   let n := fuel_of (c_ty c) in
@@ -70,6 +103,14 @@ Definition model_ok (c : case) : bool :=
   match c_rt c with
   | None => true
   | Some (intended, built, _) => val_eqb intended built      (* the driver sent the generated value *)
+  end &&
+  match c_str c with
+  | None => true
+  | Some o => res_matches (unmarshal n (force_string (c_ty c)) (c_doc c)) o
+  end &&
+  match c_marshal c with
+  | None => true
+  | Some (fs, vs, o) => marshal_matches (marshal fs vs) o
   end.
 
 Definition obs_eqb (a b : obs) : bool :=
@@ -129,7 +170,13 @@ Definition spec_ok_t (tol : tolerance) (c : case) : bool :=
   | Some (_, built, o) =>
       (* a well-formed request struct sent with the client helper is parsed back into an equal struct *)
       match o with OOk w => val_eqb built w | _ => false end
-  end.
+  end &&
+  match c_str c with
+  | None => true
+  | Some o => obs_ok tol (force_string (c_ty c)) (c_doc c) o       (* form/path/header mode: same clauses *)
+  end &&
+  forallb (fun jyo => json_yaml_float_agree (fst (fst jyo)) (snd (fst jyo)) (snd jyo)) (c_float c) &&
+  match c_marshal c with Some (_, _, MPanic) => false | _ => true end.
 
 (* the property *)
 Definition spec_ok (c : case) : bool := spec_ok_t TNone c.
